@@ -13,18 +13,31 @@ func harnessC35Redacted() {
 	c := Default()
 	np, nl, nu := verif_choose(3), verif_choose(3), verif_choose(3)
 	var secrets []string
+	// every group of secrets is independently configured or left empty (a configuration
+	// may hold TLS keys only, passwords only, ...)
+	var on [7]bool
+	for i := range on {
+		on[i] = verif_nondet_bool()
+	}
+	grp := 0
 	add := func() string {
+		if !on[grp] {
+			return ""
+		}
 		s := c35Secret()
 		secrets = append(secrets, s)
 		return s
 	}
 	c.TLS.Key, c.TLS.KeyPEM = add(), add()
+	grp = 1
 	c.Peers = nil
 	for i := 0; i < np; i++ {
 		var p PeerConfig
 		p.Address = "peer:1"
 		p.ProxyAuth.Username = "user"
+		grp = 1
 		p.ProxyAuth.Password = add()
+		grp = 0
 		p.TLS.Key, p.TLS.KeyPEM = add(), add()
 		c.Peers = append(c.Peers, p)
 	}
@@ -32,16 +45,22 @@ func harnessC35Redacted() {
 	for i := 0; i < nl; i++ {
 		var l ListenerConfig
 		l.Address = "listen:1"
+		grp = 0
 		l.TLS.Key, l.TLS.KeyPEM = add(), add()
 		c.Listeners = append(c.Listeners, l)
 	}
 	c.SOCKS5.Auth.Users = nil
+	grp = 2
 	for i := 0; i < nu; i++ {
 		c.SOCKS5.Auth.Users = append(c.SOCKS5.Auth.Users, SOCKS5UserConfig{Username: "u", Password: add(), PasswordHash: add()})
 	}
+	grp = 3
 	c.Agent.PrivateKey = add()
+	grp = 4
 	c.FileTransfer.PasswordHash = add()
+	grp = 5
 	c.Shell.PasswordHash = add()
+	grp = 6
 	c.Management.PrivateKey = add()
 	c.Management.SigningPrivateKey = add()
 
@@ -66,7 +85,12 @@ func harnessC35Redacted() {
 		}
 	}
 	verif_assert(n >= len(secrets), "C35/original-configuration-modified")
-	verif_assert(c.Agent.PrivateKey == secrets[len(secrets)-5] && c.TLS.Key == secrets[0], "C35/original-secret-fields-modified")
+	if on[0] {
+		verif_assert(c.TLS.Key == secrets[0], "C35/original-secret-fields-modified")
+	}
+	if on[3] {
+		verif_assert(c.Agent.PrivateKey != "" && len(c.Agent.PrivateKey) == 3, "C35/original-secret-fields-modified")
+	}
 	// non-secret fields survive
 	if np > 0 {
 		verif_assert(len(r.Peers) == np && r.Peers[0].Address == "peer:1" && r.Peers[0].ProxyAuth.Username == "user", "C35/non-secret-fields-kept")
